@@ -482,6 +482,27 @@ def rule_at_start(run):
         if not (isinstance(br, ast.If) and isinstance(br.test, ast.Call) and dotted(br.test.func) == "isinstance"):
             continue
         hname = dotted(br.test.args[1]) or src(br.test.args[1])
+        # a handler that may CLAIM the first state (ctx.first_state() under ctx.at_start()) does so only when the statement
+        # is reachable: with no open block left (everything before it ended in `await false`) it returns first
+        claims = [c for c in ast.walk(br) if isinstance(c, ast.Call) and isinstance(c.func, ast.Attribute) and c.func.attr == "first_state"
+                  and any(is_at_start_if(a) for a in par.ancestors(c))]
+        for c in claims:
+            guard = None
+            for st in br.body:
+                if st.lineno >= c.lineno:
+                    break
+                if isinstance(st, ast.If) and not st.orelse and "len(open_blocks) == 0" in src(st.test).replace("not open_blocks", "len(open_blocks) == 0") and any(isinstance(x, ast.Return) for x in st.body):
+                    guard = st
+            # ... and whoever claims the first state marks it as used in the same branch (an `await true` adds nothing
+            # else to it: the NEXT await / while would find the state empty and take itself for the first statement too)
+            arm = next((a for a in par.ancestors(c) if is_at_start_if(a)), None)
+            marked = arm is not None and any(isinstance(m, ast.Call) and isinstance(m.func, ast.Attribute) and m.func.attr == "append" and m.args and isinstance(m.args[0], ast.Call)
+                                             and (dotted(m.args[0].func) or "").startswith("ir.") for st in arm.body for m in ast.walk(st))
+            run.ob(marked, f"_apply_impl[{hname}]", file=gen.rel, line=c.lineno, detail="claim-marks-first-state-used", expected="<first state>.code().append(ir.Nop()) in the at_start() branch",
+                   found="ok" if marked else "the claimed first state can stay empty (await true): the following await/while is treated as the first statement again and a clock is lost")
+            run.ob(guard is not None, f"_apply_impl[{hname}]", file=gen.rel, line=c.lineno, detail="claims-first-state-only-if-reachable",
+                   expected="`if len(open_blocks) == 0: return ...` before the first state is claimed",
+                   found="ok" if guard is not None else "no such guard: after `await false` (no open block) the statement still claims the empty first state and its code runs from clock 0")
         local_fns = {f.name: f for f in ast.walk(br) if isinstance(f, (ast.FunctionDef, ast.AsyncFunctionDef))}
         # child blocks: name = ir.CodeBlock([], parent=<not None>)
         children = {}
